@@ -86,6 +86,12 @@ def parse_inferred(idx):
         # a Week offset: the unchanged code raises TypeError on it (finding C08-F6, those cases are not sent to the
         # model); with proposed-fixes/C08-2.diff it is a fixed length of n weeks
         return "(Fixed %s)" % zlit(int(m.group(1) or 1) * 7 * 1440), s
+    m = re.fullmatch(r"(\d*)(B|bh|BH)", s)
+    if m:
+        # BusinessDay(n) / BusinessHour(n): daily rows that fall on Mon-Fri only (e.g. zero week-end days of an electricity
+        # meter dropped as missing) / hourly rows inside business hours.  freq_as_timedelta reads them as n days / n hours
+        # (repaired in /repo 3414f391; before it the comparison with a Timedelta raised TypeError, former C08-F9)
+        return "(Fixed %s)" % zlit(int(m.group(1) or 1) * (1440 if m.group(2) == "B" else 60)), s
     m = re.fullmatch(r"(\d*)(MS|ME|M)", s)
     if m:
         return "(Months %s)" % zlit(int(m.group(1) or 1)), s
